@@ -390,6 +390,113 @@ def _contains(root, node) -> bool:
     return any(x is node for x in ast.walk(root))
 
 
+def _rejects_zero_cols(pm) -> str | None:
+    """the guard under which BroadcastValue's dimension validator raises for a non-positive column count, read off the
+    validator (second component of the unpacked pair compared `<= 0` / `< 1` on a path that raises); None if absent"""
+    from ..astmatch import guard_atoms, guards
+    ci = pm.classes.get("BroadcastValue")
+    if ci is None:
+        return None
+    for fi in ci.methods.values():
+        vf = fi.validator_fields()
+        if not vf or "dimension" not in vf[0]:
+            continue
+        cols = None
+        for a in walk_no_nested(fi.node):
+            if isinstance(a, ast.Assign) and isinstance(a.targets[0], (ast.Tuple, ast.List)) and len(a.targets[0].elts) == 2 \
+                    and isinstance(a.targets[0].elts[1], ast.Name):
+                cols = a.targets[0].elts[1].id
+        if cols is None:
+            continue
+        for r in walk_no_nested(fi.node):
+            if isinstance(r, ast.Raise):
+                for t, pol in guards(r, fi.node):
+                    if not pol:
+                        continue
+                    for c in ast.walk(t):
+                        if isinstance(c, ast.Compare) and len(c.ops) == 1 and isinstance(c.left, ast.Name) and c.left.id == cols \
+                                and isinstance(c.comparators[0], ast.Constant) and \
+                                ((isinstance(c.ops[0], ast.LtE) and c.comparators[0].value == 0) or (isinstance(c.ops[0], ast.Lt) and c.comparators[0].value == 1)):
+                            return unparse(c)
+    return None
+
+
+def _zero_alternatives(col: ast.AST):
+    """sub-expressions that make a column count literally zero: (X, how) meaning 'zero when X is None/empty'"""
+    out = []
+    for x in ast.walk(col):
+        if isinstance(x, ast.IfExp):
+            for arm, zero_when_true in ((x.orelse, False), (x.body, True)):
+                if isinstance(arm, ast.Constant) and arm.value == 0 and not isinstance(arm.value, bool):
+                    t = x.test
+                    if zero_when_true and isinstance(t, ast.UnaryOp) and isinstance(t.op, ast.Not):
+                        t, zero_when_true = t.operand, False
+                    if not zero_when_true and isinstance(t, (ast.Name, ast.Attribute)):
+                        out.append((t, f"`{unparse(x)}`"))
+                    elif isinstance(t, ast.Compare) and len(t.ops) == 1 and isinstance(t.comparators[0], ast.Constant) and t.comparators[0].value is None \
+                            and isinstance(t.ops[0], ast.IsNot if not zero_when_true else ast.Is):
+                        out.append((t.left, f"`{unparse(x)}`"))
+        elif isinstance(x, ast.Call) and dotted(x.func) == "len" and len(x.args) == 1 and isinstance(x.args[0], ast.BoolOp) \
+                and isinstance(x.args[0].op, ast.Or) and len(x.args[0].values) == 2:
+            a, b = x.args[0].values
+            empty = (isinstance(b, (ast.List, ast.Tuple)) and not b.elts) or (isinstance(b, ast.Constant) and b.value in ("", ())) \
+                or (isinstance(b, ast.Call) and dotted(b.func) in ("list", "tuple") and not b.args)
+            if empty:
+                out.append((a, f"`{unparse(x)}`"))
+    return out
+
+
+def r01_10(ctx: Ctx) -> None:
+    """R01.10 a broadcast grid is never built with zero columns: where the column component of a
+    BroadcastValue(dimension=…) has an explicit 'no text -> 0' alternative, the construction must be guarded by the
+    presence of that text (the validator rejects cols <= 0, so an unguarded site raises at encode time for a
+    component without text, which construction accepts).  Decided only for objects produced inside the function
+    (a copy of a header, a loop element); for parameters the obligation lies with the callers and is not decided."""
+    from ..astmatch import alternatives, guard_atoms, guards
+    pm = ctx.pm
+    why = _rejects_zero_cols(pm)
+    if why is None:
+        ctx.instance("R01.10", pm.cls("BroadcastValue").path + ":0", "BroadcastValue's validator does not reject a zero column count: nothing to check", nontrivial=False)
+        return
+    for fi in pm.iter_funcs():
+        for c in walk_no_nested(fi.node):
+            if not (isinstance(c, ast.Call) and dotted(c.func).split(".")[-1] == "BroadcastValue"):
+                continue
+            d = next((k.value for k in c.keywords if k.arg == "dimension"), None)
+            if d is None or (isinstance(d, ast.Constant) and d.value is None):
+                continue
+
+            def tuples(e, extra):
+                if isinstance(e, ast.IfExp):
+                    yield from tuples(e.body, extra + [(e.test, True)])
+                    yield from tuples(e.orelse, extra + [(e.test, False)])
+                elif isinstance(e, ast.Tuple) and len(e.elts) == 2:
+                    yield e, extra
+            site_guards = guards(c, fi.node)
+            for alt_e in alternatives(d, fi.node):
+                for tup, extra in tuples(alt_e, []):
+                    zs = _zero_alternatives(tup.elts[1])
+                    atoms = guard_atoms(site_guards + extra, fi.node)
+                    ctx.instance("R01.10", fi.where(c), f"{fi.short}: BroadcastValue columns = {unparse(tup.elts[1])[:60]}; "
+                                 f"explicit empty alternatives: {[h for _, h in zs]}", nontrivial=bool(zs))
+                    fa = fi.node.args
+                    params = {a.arg for a in list(fa.posonlyargs) + list(fa.args) + list(fa.kwonlyargs)}
+                    for x, how in zs:
+                        xs = unparse(x)
+                        root = x
+                        while isinstance(root, (ast.Attribute, ast.Subscript)):
+                            root = root.value
+                        if not isinstance(root, ast.Name) or root.id in params:
+                            # the object is handed in by the caller, which may establish the presence: not decided here
+                            ctx.instance("R01.10", fi.where(c), f"{fi.short}: presence of {xs} is the caller's obligation (parameter): not decided locally", nontrivial=False)
+                            continue
+                        present = {xs, f"{xs} is not None", f"{xs} != None", f"len({xs}) > 0", f"len({xs}) != 0", f"len({xs}) >= 1"}
+                        if not (atoms & present):
+                            ctx.violation("R01.10", fi.short, f"zero columns when {xs} is empty", fi.where(c),
+                                          f"{fi.short}: the grid's column count {how} is 0 when {xs} is None/empty and the construction is not "
+                                          f"guarded by its presence; BroadcastValue rejects it (`{why}`), so encoding raises for a component without text")
+
+
 def check(ctx: Ctx) -> None:
     pm = ctx.pm
     it = make_interp(pm)
@@ -406,8 +513,10 @@ def check(ctx: Ctx) -> None:
     ctx.assume("user text contains no unbalanced raw RTF metacharacters (the property's input restriction)")
     ctx.assume("TextContent._convert_special_chars adds only complete \\uc1\\uN* escapes (its body is analysed under C10)")
     ctx.assume("pydantic coerces constructor keywords to the declared field types")
+    ctx.assume("R01.10: a component's text, when it is not None, is non-empty (an `is not None` guard counts as presence)")
     ctx.assume("PIL/polars/struct calls behave as documented; image helpers return (None, None) or two ints (checked syntactically)")
-    ctx.undecided("absence of every run-time exception; numeric positivity/monotonicity of \\cellx values")
+    ctx.undecided("absence of every run-time exception; numeric positivity/monotonicity of \\cellx values; zero-column grids whose "
+                  "text object is a parameter of the constructing function (R01.10 leaves the presence obligation to the callers)")
     shapes = r01_1(ctx, it)
     r01_2(ctx, it)
     r01_3(ctx, shapes)
@@ -435,6 +544,7 @@ def check(ctx: Ctx) -> None:
     if dropped:
         ctx.gap("R01.1", f"the shape interpreter met statement kinds outside its subset on an output path ({dropped[0][:120]}); "
                          "their effect on the document is not modelled")
+    r01_10(ctx)
     ctx.extra["functions_interpreted"] = len(it.calls_seen)
     ctx.extra["interpreter_gaps"] = sorted({f"{a}:{b}" for a, b, _ in it.gaps})[:20]
     if len(it.calls_seen) < 38:
